@@ -886,6 +886,105 @@ func c10pushes(p *Program, r *Report, matcher *ssa.Function) {
 	if n == 0 {
 		r.Unresolved("C10.pushes", "loops over txscript.PushedData results below "+FnName(matcher))
 	}
+	// round 6 (C10-agent6-m2): the pushes of a script are what the script tokenizer says they are.  Every element that
+	// the matcher (or a function it reaches in its package) hands to the membership primitive out of a list of byte
+	// strings comes out of a txscript.PushedData result — a hand-written "fast path" for scripts that merely begin
+	// like pay-to-pubkey-hash sees other pushes than the tokenizer (or pushes in a script the tokenizer rejects).
+	var fromTokenizer func(v ssa.Value, depth int) (bool, string)
+	fromTokenizer = func(v ssa.Value, depth int) (bool, string) {
+		if depth > 4 {
+			return false, "too deep"
+		}
+		switch x := v.(type) {
+		case *ssa.Extract:
+			if c, ok := x.Tuple.(*ssa.Call); ok {
+				if x.Index == 0 && strings.HasSuffix(calleeName(&c.Call), ".PushedData") {
+					return true, ""
+				}
+				if cal := c.Call.StaticCallee(); cal != nil && p.InRepo(cal) && len(cal.Blocks) > 0 {
+					for _, ret := range returnsOf(cal) {
+						if x.Index < len(ret.Results) && !isNilConst(ret.Results[x.Index]) {
+							if ok, why := fromTokenizer(ret.Results[x.Index], depth+1); !ok {
+								return false, "via " + FnName(cal) + ": " + why
+							}
+						}
+					}
+					return true, ""
+				}
+			}
+		case *ssa.Call:
+			if cal := x.Call.StaticCallee(); cal != nil && p.InRepo(cal) && len(cal.Blocks) > 0 {
+				for _, ret := range returnsOf(cal) {
+					if len(ret.Results) > 0 && !isNilConst(ret.Results[0]) {
+						if ok, why := fromTokenizer(ret.Results[0], depth+1); !ok {
+							return false, "via " + FnName(cal) + ": " + why
+						}
+					}
+				}
+				return true, ""
+			}
+		case *ssa.Phi:
+			for _, e := range x.Edges {
+				if isNilConst(e) {
+					continue
+				}
+				if ok, why := fromTokenizer(e, depth+1); !ok {
+					return false, why
+				}
+			}
+			return true, ""
+		case *ssa.Parameter:
+			// a helper that is handed the list: every call site
+			fn := x.Parent()
+			idx := paramIndex(fn, x)
+			found := false
+			for _, g := range p.Funcs {
+				for _, b := range g.Blocks {
+					for _, in := range b.Instrs {
+						if c, ok := in.(*ssa.Call); ok && c.Call.StaticCallee() == fn && idx < len(c.Call.Args) {
+							found = true
+							if ok, why := fromTokenizer(c.Call.Args[idx], depth+1); !ok {
+								return false, why
+							}
+						}
+					}
+				}
+			}
+			if found {
+				return true, ""
+			}
+		}
+		return false, exprString(v) + " is not a txscript.PushedData result"
+	}
+	exportedMatches := p.Func("bloom", "(*Filter).Matches")
+	for _, fn := range p.Reachable([]*ssa.Function{matcher}) {
+		if fn.Pkg != matcher.Pkg || fn == exportedMatches {
+			continue
+		}
+		for _, b := range fn.Blocks {
+			for _, in := range b.Instrs {
+				c, ok := in.(*ssa.Call)
+				if !ok || c.Call.StaticCallee() != prim || len(c.Call.Args) < 2 {
+					continue
+				}
+				ld, ok := c.Call.Args[1].(*ssa.UnOp)
+				if !ok || ld.Op != token.MUL {
+					continue
+				}
+				ia, ok := ld.X.(*ssa.IndexAddr)
+				if !ok {
+					continue
+				}
+				if sl, isSl := ia.X.Type().Underlying().(*types.Slice); !isSl {
+					continue
+				} else if _, inner := sl.Elem().Underlying().(*types.Slice); !inner {
+					continue
+				}
+				ok2, why := fromTokenizer(ia.X, 0)
+				r.Add("C10.pushes", FnName(fn), "the data pushes tested are the ones txscript.PushedData found in the script", c.Pos(), ok2, why)
+			}
+		}
+	}
 	r.Floor("C10.pushes", 1)
 }
 
